@@ -19,54 +19,54 @@ def _c(i, level, tech, text, note):
     CHECKS[i] = (level, tech, text, note, f"DESIGN.md §3 {i}")
 
 _c("C01", "exploration", "property-based testing (proptest) on real sessions over a harness-owned in-memory transport: position-keyed round trip, prefix invariant, virtual-time watchdog",
-   "1-4 streams between a real client and a real server session; generated chunk sizes around the 16-bit boundary, fragmentation, capacity, padding scheme, write/read API, forced pre-emptions; every read is checked against position-keyed content, completion under a one-hour virtual watchdog. Sampling.",
+   "1-4 streams between a real client and a real server session; generated chunk sizes around the 16-bit boundary, fragmentation, capacity, padding scheme, write/read API, forced pre-emptions; every read is checked against position-keyed content, completion under a one-hour virtual watchdog; streams optionally ended by FIN or session close with late readers (nothing queued may be lost at the end). Plus end-to-end tunnels through SOCKS5 / HTTP CONNECT, real client, TLS, real server to a greeting+echo target on loopback. Sampling.",
    "trusts tokio's paused clock and current-thread scheduler and the harness pipe; the server session is wired as handle_connection wires it")
 _c("C02", "exploration", "model-based property testing (proptest): generated frame histories from a scripted reference peer vs an id->instance model; instance-keyed payloads",
    "Generated SYN/PSH/FIN/SYNACK histories over a small id pool (stray, stale, duplicate, reused ids) against a real session in either role, plus 2-8 concurrent streams between two real sessions; every byte is keyed by the stream instance it belongs to. Sampling.",
    "trusts the reference codec and the instance model; frames still in flight when an id is opened are not counted as stray (they are let to be processed first)")
-_c("C06", "exploration", "property-based testing (proptest) of authenticate_client over a fragmenting reader with exhaustive small grids (256 bit flips, 32 prefixes, every truncation length)",
-   "iff-predicate on acceptance, exact consumed-bytes count for every declared padding length (all 65536 in thorough), termination on EOF. Function level; the end-to-end negative (no stream, no dial, no reply) is part of the Lab-S families when built.",
-   "trusts sha2 and the harness pipe; end-to-end server glue not covered yet")
+_c("C06", "exploration", "property-based testing (proptest) of authenticate_client over a fragmenting reader with exhaustive small grids (256 bit flips, 32 prefixes, every truncation length) + end-to-end negatives against the real server on loopback + libFuzzer target auth_preamble",
+   "iff-predicate on acceptance, exact consumed-bytes count for every declared padding length (all 65536 in thorough), termination on EOF. End to end: a reference client over TLS sends a wrong / truncated / correct preamble (optionally followed by 6-65 s of silence) and then a complete valid session; a target connection, a stream or any application byte back is allowed iff the hash was right.",
+   "trusts sha2, the harness pipe and the reference client; kernel loopback for the end-to-end family")
 _c("C08", "exploration", "property-based testing (proptest): scripted reference peer sends data+FIN back-to-back to a real session; history invariants (EOF after data, reverse direction alive, state released)",
-   "Generated per-stream frame lists followed by FIN in one transport write with generated fragmentation, late/early readers with tiny buffers, reverse traffic before/after the FIN, siblings; both roles. Sampling. Covers received FINs; what the forwarding loops send end-to-end is judged in the Lab-S family when built.",
+   "Generated per-stream frame lists followed by FIN in one transport write with generated fragmentation, late/early readers with tiny buffers, reverse traffic before/after the FIN, siblings; both roles. Sampling. End to end (Lab-S): who closes or half-closes first (application, target) with amounts in flight in both directions through SOCKS5 -> client -> server -> target; P2/P3 (all data before the end, reverse direction alive) are armed, P1 (EOF arrives) is the listed known finding.",
    "trusts reference codec, H4 table sizes, paused clock")
 _c("C09", "fault_enumeration", "fault enumeration over byte offsets of a recorded fault-free run + property-based sampling of scenario x cause x position x schedule (proptest), virtual-time watchdog",
    "Each cause (peer EOF, three read errors, write error at byte k, flush error, Alert, liveness timeout, owner close, hanging shutdown) is injected at offsets enumerated from the fault-free recording of the same scenario, in both roles, with blocked readers, pending opens and queued writers; release invariants judged after one virtual hour.",
    "blocks forever = not completed after one virtual hour (documented bounds <= 60 s); the session's task-exit is judged only when the peer can observe the close")
 _c("C10", "exploration", "property-based testing (proptest) in virtual time: real Client::create_proxy_stream on an in-memory pooled session vs a reference verdict function of the generated answer timeline",
-   "1-6 racing opens, answers (ok / error text / none) at 0, 1 ms, 29.999 s, 30 s, 30.001 s, duplicated, stray, cross-addressed, session death during the wait. Sampling. Front-end replies and dial-before-SYNACK are judged in Lab-S families when built.",
+   "1-6 racing opens, answers (ok / error text / none) at 0, 1 ms, 29.999 s, 30 s, 30.001 s, duplicated, stray, cross-addressed, long / multi-byte / invalid UTF-8 reasons, peer versions 0-2, session death during the wait (the call must end when the session dies, not at the timeout). Sampling.",
    "an answer exactly at the 30 s deadline may go either way; H3 gives access to the pool")
 _c("C11", "exploration", "schedule exploration by property-based testing (proptest): generated yield counts at instrumented points + spawn order + transport back-pressure; invariants over the reference-parsed wire vs submission logs",
-   "2-5 writer tasks on one fresh session doing what real callers do; wire must parse, equal the submitted multiset, keep per-task FIFO, start with the settings frame and keep SYN before PSH. Sampling of schedules at hook points only.",
+   "2-5 writer tasks on one fresh session doing what real callers do (incl. 65530-65540-byte sends), transport stalls of up to 40 s mid-history; wire must parse, equal the submitted multiset, keep per-task FIFO, start with the settings frame and keep SYN before PSH. Sampling of schedules at hook points only.",
    "schedules are explored at H1 points, transport Pendings and spawn order on a single-threaded runtime; data races below the await level are out of reach")
 _c("C12", "exploration", "model-based property testing (proptest) in virtual time: generated pool histories vs a validity predicate evaluated around every reaper tick",
-   "Add/Get/Kill/Advance/Cleanup histories on the real SessionPool with in-memory sessions; predicate: never a closed session from Get, only expired sessions reaped, never below min idle, at most min idle expired survivors, idle_count agrees. Pool level only so far (the client-level in-use check is a Lab-S family).",
+   "Add/Get/Kill/Advance/Cleanup histories on the real SessionPool with in-memory sessions; predicate: never a closed session from Get, only expired sessions reaped, never below min idle, at most min idle expired survivors, idle_count agrees. Lab-S: a real client with 1 s / 2 s timers holding streams across reaper ticks (in-use sessions must survive: listed known finding, keyed on the in-use model) and bursts of 2-24 simultaneous requests on an empty pool (idle_count and hand-outs vs the model of dialled-and-not-taken sessions).",
    "which survivor is kept is left open; exact-boundary ages may go either way")
 _c("C14", "exploration", "property-based testing (proptest) in virtual time over an (interval, timeout) grid x peer behaviours vs a reference spec of allowed close instants",
-   "Real client session with heartbeat config against the real server session (delayed pipes) or a scripted peer that falls silent at generated instants, with/without traffic and send-buffer exhaustion; safe/detect/answer clauses on sampled is_closed. Plus a real-time glue family: the real Client (settings 1-3 s) against the reference server, answering or silent.",
+   "Real client session with heartbeat config against the real server session (delayed pipes) or a scripted peer that falls silent at generated instants, with/without traffic and send-buffer exhaustion; safe/detect/answer clauses on sampled is_closed. Plus a real-time glue family: the real Client (settings 1-3 s) against the reference server answering always, never, or only the first n requests.",
    "is_closed sampled every 100 ms virtual; 150 ms slack on the detect bound")
 _c("C17", "exploration", "property-based differential testing (proptest) of the request parser/rewriter against a reference HTTP reading; grammar-based request generator",
-   "Generated well-formed proxy requests (all target forms, IPv6, ports, header sets up to ~64 KiB, Host in any case/position, body prefix) through the private parse+rewrite functions (H6). Pure level; listener, CONNECT reply order and early data are judged in the Lab-S family when built.",
+   "Generated well-formed proxy requests (all target forms, IPv6, ports, header sets up to ~64 KiB, Host in any case/position, body prefix) through the private parse+rewrite functions (H6). Lab-S family `proxy`: the same request grammar in generated TCP segmentations (cuts inside the header terminator, header sizes at multiples of the 1 KiB read size) against the real HTTP listener -> client -> server -> recording origin; CONNECT: 200 only after the tunnel exists, 502 otherwise, early data forwarded; libFuzzer target http_rewrite.",
    "generator restricted to what senders produce (lower-case scheme, no userinfo, UTF-8); reference per RFC 7230 §5.3/5.4")
 _c("C18", "fault_enumeration", "enumeration of on-disk fault states (every truncation prefix, missing/garbled/mismatched/expired files) + property-based reload histories (proptest) vs a last-good-pair model, with real in-memory TLS handshakes",
    "After every step the leaf certificate presented in a real handshake (signature verified), cert info and counters must match the last pair whose reload succeeded; old connections keep working. Plus the real Server::new_with_reloadable_tls accept path on loopback.",
    "prefixes ending inside the final PEM line may load or not; watcher/debounce not driven")
 
 _c("C07", "exploration", "property-based testing (proptest): round trip + differential against a reference SOCKS address codec (Lab-M), resolver histories against a fake DNS, end-to-end dial histories on loopback",
-   "Destinations of every address type and length through the real client encoder and the real server decoder (also each against the reference), resolver call histories with cache ageing, and request histories by name through the SOCKS5 front-end to listeners on distinct loopback addresses/ports.",
+   "Destinations of every address type and length through the real client encoder and the real server decoder (also each against the reference), resolver call histories with cache ageing, simultaneous first lookups, and request histories by name through the SOCKS5 and HTTP front-ends (CONNECT, origin-form + Host with another listener's URL in the query, absolute-form) to listeners on distinct loopback addresses/ports: the requested listener, and only it, must be dialled.",
    "fake DNS installed through the public set_custom_dns_servers; H7 ages the cache; kernel loopback for the dial family")
 _c("C16", "exploration", "property-based testing (proptest) of the real SOCKS5 listener on loopback against a reference model of RFC 1928; generated greetings/requests and TCP segmentations",
-   "Generated greetings, requests (all commands, address types, versions) and segmentations against the real front-end -> client -> TLS -> server -> loopback targets, with a neighbour connection and a fresh connection afterwards. Sampling; negatives are evaluated after the front-end replied or closed.",
+   "Generated greetings, requests (all commands, address types, versions) and segmentations against the real front-end -> client -> TLS -> server -> loopback targets, with a neighbour connection, optionally a second connection holding an unfinished greeting throughout, and a fresh connection afterwards. Sampling; negatives are evaluated after the front-end replied or closed.",
    "kernel loopback timing; one shared world per worker thread; localhost resolves to 127.0.0.1")
 
 _c("C13", "exploration", "property-based testing (proptest) of request histories through the real SOCKS5 front-end with a counting TCP forwarder in front of the real server; invariants over the connection counts",
-   "Generated sequential/bursty request histories, pool settings varied; the forwarder counts TLS connections opened and still open. r2 (second non-overlapping request reuses) is armed; r3+ and the bound are listed known findings with witnesses (sessions are never returned to the pool).",
-   "kernel loopback; forwarder accept count = sessions dialled; histories shorter than the 30 s check interval")
+   "Generated sequential/bursty request histories with pauses, pool settings varied (incl. 1 s / 2 s timers); the forwarder counts TLS connections opened and still open and the client's idle_count is compared with the pool model after every step. r2 (second non-overlapping request reuses) is armed; r3+ and the bound are listed known findings with witnesses (sessions are never returned to the pool).",
+   "kernel loopback; forwarder accept count = sessions dialled; pool model: dial inserts, reuse removes, nothing returns (today's lifecycle)")
 _c("C15", "exploration", "property-based testing (proptest): end-to-end datagram sequences in lock-step through create_udp_proxy on loopback, and the server relay fed a reference UDP-over-TCP stream with generated fragmentation",
-   "Datagram sizes 1..65507 with keyed contents in both directions through the real client/server; server relay alone with cuts inside length prefixes and several packets per chunk; exactly-one/identical/ordered delivery and silence of a decoy socket.",
+   "Datagram sizes 1..65507 with keyed contents in both directions through the real client/server; IPv4 and IPv6 targets; server relay alone with cuts inside length prefixes and several packets per chunk; the real client's association against a reference server that echoes each datagram in fragments with 0-2600 ms between the frames; exactly-one/identical/ordered delivery and silence of a decoy socket.",
    "kernel loopback UDP in lock-step (no socket buffer loss); reference UoT framing")
 _c("C19", "exploration", "property-based testing (proptest) of process-level histories, each in a fresh child process, against a scripted reference server that observes the client's plaintext; reference scheme family with distinct fixed sizes",
-   "1-4 sessions of one real Client per process, server scheme per connection (parsable with distinct sizes / unparsable), default used before or not; packet sizes, announced md5, preamble padding and push counts judged against the scheme that must be in force. Plus the real server session's push decision in Lab-M.",
+   "1-4 sessions of one real Client per process, server scheme per connection (parsable with distinct sizes / the built-in scheme / unparsable), client schemes incl. stop=1, default used before or not; packet sizes, announced md5, preamble padding and push counts judged against the scheme that must be in force. Plus the real server session's push decision in Lab-M.",
    "one child process per history; the reference server's plaintext view; packets delimited by the child's known call pattern")
 
 _c("C20", "exploration", "mutational property-based testing (proptest) of established real sessions and parsers with panic/allocation/quiescence/watchdog monitors and a sibling-stream oracle; coverage-guided fuzzing (libFuzzer via cargo-fuzz) of the same oracles in the thorough tier",
